@@ -213,15 +213,19 @@ func (s *sqlGen) column(t *TableInfo, names map[string]bool, primaries []*TableI
 			// ill-typed - []int16 is not convertible to pq.Int32Array - which
 			// is C01's business)
 			elem := kernel.Pick(r, []string{"int32", "int64", "string", "bool", "float64", "int32"})
+			enumElem := false
 			if r.Chance(1, 4) {
 				e := s.supportEnum()
 				if !e.IsString {
 					elem = e.Name
 					c.Enum = e.Name
+					enumElem = true
 				}
 			}
 			c.Kind = "array"
-			if r.Bool() {
+			// (fixed-length arrays of enums make the generated converter
+			// ill-typed - copy([]E, pq.Int64Array) - which is C01's business)
+			if r.Bool() && !enumElem {
 				c.ArrayLen = r.Range(1, 5)
 				if elem == "uint8" {
 					elem = "int16" // [n]uint8 is fine, []uint8 is bytea; keep both out of the way
